@@ -10,15 +10,111 @@ BASELINE = ("cd /repo && /venv/bin/python -m pytest -ra -q -p no:cacheprovider -
             "--continue-on-collection-errors")
 
 # id -> (engine, technique, level text, level note, design ref)
+TRUST = 'pandas 3.0.6 / numpy 2.5.3 / CPython 3.12.1; the verdict is for the stated bound only; reference models and value alphabets as listed in the module\'s ASSUMPTIONS (copied into the evidence file).'
+
 CHECKS = {
+    'C01': ('E1', 'explicit-state BFS over operation histories on real dictable objects, list-of-records model in lock-step, canonical-state de-duplication',
+            'Breadth-first search over histories of public table operations (assignment incl. misfits, deletion, slicing, masks, integer lists, projection, derived columns, '
+            'renaming, do, -, &, copy, inc/exc, + and concat with 9 kinds of operand) from 23 constructions, depth 2 (quick) / 4 (thorough), tables <=3/4 rows x <=3 columns x 5 cell values. '
+            'Every transition is compared with a list-of-records model (rectangularity, len/shape, d[i][c]==d[c][i], iteration, None fill), every version produced earlier in the '
+            'history is re-inspected (aliasing), misfit assignments must raise ValueError and leave the table intact, and the same op on a freshly built equal table must agree.',
+            'Bounded depth and table size; column order, rename clashes, wrong-length masks are excluded. ' + TRUST, 'DESIGN.md section 4, C01'),
+    'C02': ('E2+E4', 'bounded exhaustive enumeration of table pairs against a nested-loop relational model; termination decided by lasso detection on the merge cursors plus deterministic fuel',
+            'All pairs of tables (0..3 x 0..2 rows quick, 0..3 x 0..3 and 4-row sides thorough) over an 8-value key domain incl. two NaN objects of different identity, 1..3 key columns, every '
+            'lcols/rcols spelling and mode: join must be the multiset of matching row pairs, xor the anti-join, both partition x, operands untouched. Every call runs under a sys.settrace '
+            'monitor: an exact repeat of (while-header, l, r, len(res)) is a proven non-terminating lasso; a fuel bound on line events backs it up.',
+            'Key equality as the statement defines it; bool/inf keys, output row order and columns of an empty join are not checked. ' + TRUST, 'DESIGN.md section 4, C02'),
+    'C03': ('E2', 'bounded exhaustive enumeration of index-subset tuples x NaN patterns x containers x policies against a dict-of-days as-of alignment model',
+            'Every pair/triple of Series over every index subset of a 4/5-day timeline x NaN patterns, nested list/dict containers with non-timeseries members, 2-column frames with '
+            'column policies, and all tuples of bare numpy arrays of length 0..4/5, through df_index, df_reindex, df_sync and presync spellings, for ij/oj/lj/rj/explicit index and '
+            'None/ffill/bfill: exact common index, original values kept, as-of fill, structure and identity of other members preserved.',
+            'Sorted duplicate-free daily indices; tuples as containers, limit, partially-NaN frame rows with a fill method are excluded. ' + TRUST, 'DESIGN.md section 4, C03'),
+    'C04': ('E2', 'exhaustive enumeration of the whole 400-year domain (thorough) / boundary years and boundary days (quick) x every supported spelling against datetime arithmetic',
+            'For every calendar day of 1900-2299 (thorough: all 146 097; quick: 14 years in full plus the 1st/12th/13th/28th-31st of every month) every supported spelling of the instant '
+            '(datetime, date, parts, yyyymmdd, ordinal, numpy/pandas, ISO, uk/us numeric with 4 separators, month-name forms, dt2str round trip, ymd) must give the same datetime, other-dialect '
+            'strings with day>12 must raise ValueError, and dt(y,m,d) over m in [-36,48] x d in [-400,400] must equal the normalised-month arithmetic.',
+            'Two-digit years, now-relative forms, time zones and sub-second parts of dd-mm-yyyy strings are excluded. ' + TRUST, 'DESIGN.md section 4, C04'),
+    'C05': ('E2+E1', 'exhaustive enumeration of calendar configurations (all holiday subsets of a critical window x weekends x adj) against day-by-day stepping; BFS over registry histories',
+            'All 2^7 (quick) / 2^10 (thorough) holiday subsets of a window placed over a weekend+month end and over the year end x 4 weekend definitions x 3 adjustments: is_bday, adjust, add '
+            '(loop path vs table path), inverse and two-step laws, bdays, Calendar.drange and dt_bump against a stepping model for every t in the window and n up to +-40; explicit-state BFS '
+            'over calendar(key, holidays) / calendar(key) histories against a last-writer-wins registry model.',
+            'Dates within 60 business days of the calendar range ends are not claimed. ' + TRUST, 'DESIGN.md section 4, C05'),
     'C06': ('E2', 'bounded exhaustive enumeration of inputs (all tables x all conditions) against a reference predicate filter',
             'Every x-column of 0..4 (quick) / 0..5 (thorough) rows over a 7-value cell domain against a closed menu of 68 conditions is run on the '
             'real inc/exc/find_/one_or_none and compared with a Python predicate filter: partition, order, columns kept on empty results, '
             'idempotence, operand untouched. Exhaustive inside the bound, silent outside it.',
-            'Bounded: tables <=5 rows, one filtered column plus a row-id and a constant column, the listed condition menu; +-inf cells, NaN '
-            'inside value lists and several callables at once are outside the statement and not checked. pandas 3.0.6 / numpy 2.5.3 / CPython 3.12.',
+            'Tables <=5 rows, one filtered column plus a row-id and a constant column; +-inf cells, NaN inside value lists and several callables at once are outside the statement. ' + TRUST,
             'DESIGN.md section 4, C06'),
+    'C07': ('E2', 'exhaustive enumeration of all pairs and triples of a mixed-type universe (order axioms), all short lists and all small tables x sort spellings',
+            'All 50^2 ordered pairs and 50^3 triples of a mixed universe (two NaN identities, +-inf, bools, numpy scalars, dates, nested and empty containers) for the cmp laws; all lists of '
+            '<=4/5 scalars over 8 values (fresh and shared NaN) and of <=3 two-tuples for sort (permutation by identity, non-decreasing under cmp); all tables <=3/4 rows x 13 sort spellings '
+            'for dictable.sort (stable cmp order, idempotent, explicit value orders, operand untouched).',
+            'Ordering between types is whatever cmp says; bools and +-inf take part in the cmp laws only. ' + TRUST, 'DESIGN.md section 4, C07'),
+    'C08': ('E2', 'bounded exhaustive enumeration of operand tuples over index subsets x value rotations x policies against pointwise float64 arithmetic on the alignment model',
+            'All ordered pairs of Series over every index subset of a 4/5-day timeline x value rotations of {1,0,NaN,2,-1.5}, scalars on either side, pairs of 2-column frames with both column '
+            'policies, triples/quadruples for the list forms, and df_sum/df_mean/df_count: result index = intersection/union, result[t] = a[t] op b[t], neutral element for missing columns, '
+            'division by zero gives NaN never inf, add_/mul_ commutative, left-to-right reduction (checked to the last bit), NaN-skipping aggregates.',
+            'Series mixed with multi-column frames, integer dtypes, fill methods are excluded. ' + TRUST, 'DESIGN.md section 4, C08'),
+    'C09': ('E2', 'exhaustive enumeration of the day x bump transition system (every day of the 400-year cycle x every n x every unit in the thorough tier) against a stepping reference',
+            'States are days, edges are bumps: every start day of the cycle (thorough) / 14 years (quick) x n in [-60,60] x units b,d,w,m,q,y,h,n,s,int,timedelta, named tenors, all 2- and 3-part '
+            'compound tenors on multi-year windows, intraday starts: conformance of every edge with a day-by-day reference, weekday landing, monotonicity, composition and inverse laws.',
+            'Month-based bumps with a time of day and now-relative forms are excluded. ' + TRUST, 'DESIGN.md section 4, C09'),
+    'C10': ('E2', 'bounded exhaustive enumeration of (start, span, bump) against iteration of the reference bump',
+            'Every start day of 2023-12-20..2024-03-10 x spans 0..21/70 days in both directions (multi-year spans for month-based bumps) x ints, timedeltas (incl. intraday), every single period '
+            'string with every unit and sign, compound strings: the list must be the strictly monotone iteration of the bump inside the closed interval, int == timedelta == "nd", weekday '
+            'lists for business-day bumps, [t0] for an empty span and ValueError for a bump pointing away from t1.',
+            'Zero-length bumps, month-based bumps from days 29-31 and now-relative endpoints are excluded. ' + TRUST, 'DESIGN.md section 4, C10'),
+    'C11': ('E2', 'bounded exhaustive enumeration of tables x key choices against a group-by-equality model and inverse laws',
+            'All tables <=4/5 rows over a mixed-type key domain (None, 1, 1.0, 2, str, datetime) x every key choice: listby has one row per distinct key with values in original order and '
+            'unlist equals the stable cmp-sort, groupby/ungroup conserve the multiset of rows, pivot puts every z in its (x, y) cell (aggregated), unpivot restores the distinct rows; operands untouched.',
+            'NaN in key columns and the shown representative of 1/1.0 are excluded. ' + TRUST, 'DESIGN.md section 4, C11'),
+    'C12': ('E2', 'exhaustive enumeration of all NaN masks of short vectors and 2-column frames x methods x limits against scalar-loop fill models',
+            'Every NaN mask of vectors of length 0..6/9 and of 2-column frames of 0..3/4 rows, as Series, DataFrame, 1-d and 2-d arrays x 35 method/limit combinations: no non-NaN cell changes, '
+            'ffill/bfill reach exactly `limit` positions, constants, method lists, nona/fnna row removal, ffill_na/ffill_0, array result == values of the pandas result, argument untouched.',
+            'pad/interpolation methods, axis=1 and constants with a limit are excluded. ' + TRUST, 'DESIGN.md section 4, C12'),
+    'C13': ('E2', 'bounded exhaustive enumeration of index subsets x bound positions x brackets (and stitch configurations) against the interval predicate',
+            'Every subset of a 6-point index x every lb/ub position (before, on, between, after, None) x 4 brackets for Series and frames, time-of-day windows incl. wrap past midnight, and all '
+            'stitch configurations of 2..3/4 series (some empty) x bound lists x n, with the df_unslice round trip.',
+            'Unsorted/duplicate indices and df_unslice of a Series are excluded. ' + TRUST, 'DESIGN.md section 4, C13'),
+    'C14': ('E2', 'exhaustive enumeration of all ordered pairs and triples of a nested value universe plus fresh-NaN structural copies (equivalence axioms by table lookup)',
+            'All pairs and triples of a 148-entry (quick) / 326-entry (thorough) universe of scalars, numpy scalars, timestamps, containers, arrays, Series and DataFrames and their fresh-NaN copies: '
+            'eq returns a boolean and never raises, is reflexive (also against the copy), symmetric, transitive, type-strict at every depth, agrees with == on plain values and with an explicit '
+            'array/pandas model; in_ agrees with any(eq).',
+            'Extension arrays, sets, non-str dict keys excluded; transitivity is not asserted across date/datetime64 groups whose own == is intransitive. ' + TRUST, 'DESIGN.md section 4, C14'),
+    'C15': ('E2+E1', 'bounded exhaustive enumeration of trees and all pairs (t, u) against a recursive merge model with deep identity snapshots; update chains with earlier results re-inspected',
+            'Every prefix-free tree with <=3/4 leaves over 2-3 keys: flatten/rebuild round trip, keys/values order, getitem spellings; ALL pairs (t, u) x ignore lists through tree_update, Dict + dict, '
+            'items_to_tree, table_to_tree against a recursive merge model, with deep snapshots (identity and content of every nested branch) of both operands; chains of updates with every '
+            'intermediate result kept and re-inspected; table<->tree inverse on patterns with 1..4 wildcards.',
+            'Empty branches, non-string keys and result branch types are excluded. ' + TRUST, 'DESIGN.md section 4, C15'),
+    'C16': ('E2', 'bounded exhaustive enumeration of lists, mappings x key selections, and every dependency digraph x every keyword order',
+            'All lists <=4/5 over 4 elements as ulist operands (ordered set algebra, type, no duplicates, operands untouched); every mapping over <=3/4 keys in every insertion order for dictattr, Dict '
+            'and a subclass x every key selection for -, &, [], +, relabel, attribute access; Dict.__call__ on EVERY digraph on <=4 derived keys (2^12) x every keyword order, structured families on 5-6 '
+            'keys: topological result for acyclic graphs, ValueError for every cyclic one, termination by a line-event fuel counter.',
+            'Self-referencing definitions, tuple keys and clashing relabels are excluded. ' + TRUST, 'DESIGN.md section 4, C16'),
+    'C17': ('E1', 'explicit-state BFS over publication histories on real bitemporal stores against a spec-level publication-list model, with a differential no-leak oracle',
+            'Breadth-first search over histories of bi_merge publications (15 partial versions over 2 dates x 3 non-decreasing stamps, depth 2/3; single-date histories depth 3/4; list-form merges): '
+            'from every reached store all 16 reads (8 read times x what in {-1,0}) are compared with the model, the as-of-T read must equal the read on the store built from the publications stamped '
+            '<= T only (no look-ahead leak), re-merging a current version changes no read, merge inputs are untouched.',
+            'Decreasing stamps, multi-column frames and per-date groups above 16 rows are excluded. ' + TRUST, 'DESIGN.md section 4, C17'),
+    'C18': ('E2+E1', 'exhaustive enumeration of signatures x valid calls x decorator stacks against direct calls and inspect; BFS over cache call histories against a call-counting model',
+            'All 60 signatures (0..4 positional parameters x trailing defaults x +-*args x +-**kwargs) x every valid call (inspect.signature.bind) x 10 decorators x every stack of <=2/3: same result, '
+            'same argument specification, wrapping twice equals wrapping once (directly and through a chain), getcallargs == inspect.getcallargs, call_with_callargs round trip, try_* fallbacks on a '
+            'raising twin, kwargs_support keyword filtering; BFS over all call sequences (depth 3/5, 11 spellings + clear_cache) on a cached function: evaluated iff the combination is new.',
+            'Keyword-only parameters and unhashable cache arguments are excluded; one open known finding (kwargs_support drops undeclared keywords of a **kwargs function). ' + TRUST,
+            'DESIGN.md section 4, C18'),
+    'C19': ('E2+E3', 'bounded exhaustive enumeration of nested structures x companions x passing; every completion order of the awaitables on a real asyncio loop driven by harness-owned futures',
+            'Every structure of the grammar leaf|list|tuple|dict with <=5/6 nodes x companion kinds x positional/keyword passing through a generated lifted function and 10 library helpers; all '
+            'argument tuples <=3 for zipper/lens; as_list/as_tuple idempotence; waiter on structures with k<=4/6 awaitables (pending futures, coroutines, completed futures) under EVERY completion '
+            'order (k!) x 0..2 extra loop turns, same result for every schedule, no deadlock within the horizon.',
+            'Raising/cancelled awaitables and pandas first arguments are excluded; one open known finding (as_tuple on a list whose single element is a list). ' + TRUST, 'DESIGN.md section 4, C19'),
+    'C20': ('E2', 'bounded exhaustive enumeration of input kinds x key subsets x defaults x data/expiry assignments against a keyed-join model with a per-key call log',
+            '1..4 inputs, each a scalar or a table over any subset of 2-3 keys (rows scrambled) x every subset of defaulted inputs x previously computed data over any key subset x expiry per key in '
+            '{no row, past, future, None}; two key columns in both orders of `on`: surviving keys = inner join (outer for defaulted inputs), sorted by key, value = f on that key\'s values, f '
+            'evaluated exactly once per recomputed key and never for kept or dropped keys; join() directly.',
+            'The value returned when no key survives and data combined with only-defaulted inputs are excluded. ' + TRUST, 'DESIGN.md section 4, C20'),
 }
+
+NOT_READY = set(['C05', 'C10', 'C13', 'C15'])
 
 PENDING_REASON = 'check under construction in this session (claimed in DESIGN.md; will move to checks once its module is committed)'
 
@@ -27,7 +123,7 @@ def main():
     props = [json.loads(l)['id'] for l in open(os.path.join(HERE, 'properties.jsonl'))]
     checks = []
     for pid in props:
-        if pid not in CHECKS:
+        if pid not in CHECKS or pid in NOT_READY:
             continue
         eng, tech, text, note, ref = CHECKS[pid]
         checks.append(dict(
@@ -44,14 +140,14 @@ def main():
     engines = [
         dict(name='E1', path='mc/engine.py', kind_free_text='explicit-state breadth-first search over operation histories on the real objects, '
              'canonical-state de-duplication, reference model in lock-step on every transition',
-             serves_properties=[p for p in props if p in CHECKS and 'E1' in CHECKS[p][0]]),
+             serves_properties=[p for p in props if p in CHECKS and p not in NOT_READY and 'E1' in CHECKS[p][0]]),
         dict(name='E2', path='mc/engine.py', kind_free_text='small-scope exhaustive enumerator: complete product over explicit finite domains, '
              'every case executed on the implementation and compared with a reference model',
-             serves_properties=[p for p in props if p in CHECKS and 'E2' in CHECKS[p][0]]),
+             serves_properties=[p for p in props if p in CHECKS and p not in NOT_READY and 'E2' in CHECKS[p][0]]),
         dict(name='E3', path='mc/props/c19.py', kind_free_text='completion-order (schedule) enumerator on a real asyncio loop driven by harness-owned futures',
-             serves_properties=[p for p in props if p in CHECKS and 'E3' in CHECKS[p][0]]),
+             serves_properties=[p for p in props if p in CHECKS and p not in NOT_READY and 'E3' in CHECKS[p][0]]),
         dict(name='E4', path='mc/props/c02.py', kind_free_text='termination monitor: lasso detection on the merge cursors at while-headers plus deterministic fuel (sys.settrace)',
-             serves_properties=[p for p in props if p in CHECKS and 'E4' in CHECKS[p][0]]),
+             serves_properties=[p for p in props if p in CHECKS and p not in NOT_READY and 'E4' in CHECKS[p][0]]),
     ]
     m = dict(
         version=1,
@@ -62,7 +158,7 @@ def main():
                    baseline_off_cmd=BASELINE, source_commits=[], add_only=True),
         engines=engines,
         checks=checks,
-        not_applicable=[dict(property_id=p, reason=PENDING_REASON) for p in props if p not in CHECKS],
+        not_applicable=[dict(property_id=p, reason=PENDING_REASON) for p in props if p not in CHECKS or p in NOT_READY],
         notes='All checks are bounded-exhaustive explorations (model checking of the implementation against executable reference models); '
               'see DESIGN.md. Known findings: /verif/known_findings.json. Seeded mutants: /verif/seeded/.',
     )
